@@ -374,11 +374,18 @@ func carry(kind string, b []byte) any {
 }
 
 func runEncode(ec encCase) (string, string) {
-	body := clib.Body(1, ec.Len)
+	// the payload lies inside a larger array of the caller (a message carved out of a receive buffer: the
+	// next payload starts right behind it, within the slice's spare capacity)
+	arena := append(append(bytes.Repeat([]byte{0xA5}, 8), clib.Body(1, ec.Len)...), bytes.Repeat([]byte{0x5A}, 8)...)
+	before := append([]byte{}, arena...)
+	body := arena[8 : 8+ec.Len]
 	enc := ec.Cfg.Encoder()
 	wire, exc, _ := clib.Encode(enc, carry(ec.Carrier, body))
-	ref, admitted := ec.Cfg.RefFrame(body)
 	desc := fmt.Sprintf("%s encoding a %d-byte %s", ec.Cfg, ec.Len, ec.Carrier)
+	if !bytes.Equal(arena, before) {
+		return "encoder-modifies-caller-memory/" + ec.Cfg.KeyClass() + "/" + ec.Carrier, desc + ": the caller's array around / under the payload was changed by the encoder (the next payload carved from the same array would be corrupted)"
+	}
+	ref, admitted := ec.Cfg.RefFrame(body)
 	if admitted {
 		if len(exc) > 0 {
 			return "encoder-rejects-admitted/" + ec.Cfg.KeyClass(), desc + fmt.Sprintf(": raised %v", exc[0])
